@@ -1,21 +1,22 @@
 #!/bin/sh
-# usage: tools/confirm_seed.sh C05   -> confirms /tmp/wt-C05/seeded in a fresh worktree, writes /tmp/confirm-C05.log
-id=$1
-src=/tmp/wt-$id/seeded
-wt=/tmp/confirm-$id
-log=/tmp/confirm-$id.log
+# usage: tools/confirm_seed.sh <worktree-of-the-seed-agent> <tag>
+# confirms <worktree>/seeded in a FRESH worktree of /repo HEAD; writes /tmp/confirm-<tag>.log
+srcw=$1; tag=$2
+src=$srcw/seeded
+wt=/tmp/confirm-$tag
+log=/tmp/confirm-$tag.log
 rm -rf $wt; git -C /repo worktree prune; git -C /repo worktree add -q --detach $wt HEAD || exit 2
 {
-echo "== $id on $(git -C /repo log --format=%h -1)"
+echo "== $tag on $(git -C /repo log --format=%h -1)"
 demo=$(ls $src | grep -E '^(test_demo|demo)\.py$' | head -1)
 cp $src/$demo $wt/
 run_demo() {
-  if [ "$demo" = "test_demo.py" ]; then (cd $wt && PYTHONPATH=$wt/src timeout 300 /venv/bin/python -m pytest -q -p no:cacheprovider --no-cov -x test_demo.py >/tmp/confirm-$id.demo 2>&1; echo $?)
-  else (cd $wt && PYTHONPATH=$wt/src timeout 300 /venv/bin/python demo.py >/tmp/confirm-$id.demo 2>&1; echo $?); fi
+  if [ "$demo" = "test_demo.py" ]; then (cd $wt && PYTHONPATH=$wt/src timeout 300 /venv/bin/python -m pytest -q -p no:cacheprovider --no-cov -x test_demo.py >/tmp/confirm-$tag.demo 2>&1; echo $?)
+  else (cd $wt && PYTHONPATH=$wt/src timeout 300 /venv/bin/python demo.py >/tmp/confirm-$tag.demo 2>&1; echo $?); fi
 }
 echo "demo without change: rc=$(run_demo)"
 (cd $wt && git apply $src/patch.diff) && echo "patch applied" || echo "PATCH FAILED"
-echo "demo with change: rc=$(run_demo)"; tail -3 /tmp/confirm-$id.demo
+echo "demo with change: rc=$(run_demo)"; tail -3 /tmp/confirm-$tag.demo
 rm -f $wt/$demo
 echo "suite with change (isolated netns):"
 (cd $wt && PYTHONPATH=$wt/src timeout 1500 unshare -n sh -c 'ip link set lo up; ip route add 224.0.0.0/4 dev lo; /venv/bin/python -m pytest -q -p no:cacheprovider --timeout=600 -q tests 2>&1 | tail -4')
